@@ -5,13 +5,13 @@ go 1.26.8
 require (
 	github.com/enbility/go-avahi v0.0.0-20240909195612-d5de6b280d7a
 	github.com/enbility/ship-go v0.0.0
+	github.com/enbility/zeroconf/v2 v2.0.0-20240920094356-be1cae74fda6
 	github.com/godbus/dbus/v5 v5.1.0
 	github.com/gorilla/websocket v1.5.3
 	pgregory.net/rapid v1.3.0
 )
 
 require (
-	github.com/enbility/zeroconf/v2 v2.0.0-20240920094356-be1cae74fda6 // indirect
 	github.com/miekg/dns v1.1.62 // indirect
 	gitlab.com/c0b/go-ordered-json v0.0.0-20201030195603-febf46534d5a // indirect
 	golang.org/x/mod v0.21.0 // indirect
